@@ -71,7 +71,11 @@ static const unsigned int CACHE_MASK_SEQ[] = {
 	0x02, /* pfx1 only */
 	0x00, /* empty */
 	0x7f, /* everything */
+	/* reached only with a rotated start (CACHE_MASK_ROT): data sets that leave one address family's trie empty */
+	0x58, /* pfx3 pfx4 key1: IPv6 and a key, no IPv4 */
+	0x23, /* pfx0 pfx1 key0: IPv4 and a key, no IPv6 */
 };
+static int CACHE_MASK_ROT; /* index of the first data set */
 #define CACHE_NMASKS ((int)(sizeof(CACHE_MASK_SEQ) / sizeof(CACHE_MASK_SEQ[0])))
 
 static void cache_init(struct cachesim *c, uint16_t session, uint8_t ver, uint32_t first_serial)
@@ -80,9 +84,9 @@ static void cache_init(struct cachesim *c, uint16_t session, uint8_t ver, uint32
 	c->session = session;
 	c->ver = ver;
 	c->hist[0].serial = first_serial;
-	c->hist[0].mask = CACHE_MASK_SEQ[0];
+	c->hist[0].mask = CACHE_MASK_SEQ[CACHE_MASK_ROT % CACHE_NMASKS];
 	c->nhist = 1;
-	c->next_mask_idx = 1;
+	c->next_mask_idx = CACHE_MASK_ROT + 1;
 	c->refresh = 3600;
 	c->retry = 600;
 	c->expire = 7200;
